@@ -102,7 +102,7 @@ PROPS["C04"]["trusted"] = PROPS["C04"]["trusted"] + [
     "strace (ptrace) fault and kill injection; tailscale.com/atomicfile is not translated: its system-call sequence is traced and compared with Model.Fs.atomicWrite on every run"]
 PROPS["C04"]["rule"] = (DB_RULE + "; in-process save failures (state directory moved away) at random steps; plus, for each of create/new secret/new version/activate/"
                         "delete-version/delete: a child process performing the real operation under strace, its window of file-system calls compared with the model, then every "
-                        "call of the window failed with EIO (and ENOSPC where plausible) and the process killed before each call and after the last; a case is (operation, call, errno|kill)")
+                        "call of the window failed with EIO (and ENOSPC, EACCES, EPERM where plausible) and the process killed before each call and after the last; a case is (operation, call, errno|kill)")
 PROPS["C04"]["exhaustive"] = True
 
 
